@@ -3,6 +3,7 @@
 package geom
 
 func init() {
+	vfHarnesses["C10_map_order_shapes"] = vfhC10MapOrderShapes
 	vfHarnesses["C10_frozen_inputs"] = vfhC10FrozenInputs
 	vfHarnesses["C10_aliasing"] = vfhC10Aliasing
 	vfHarnesses["C10_map_order"] = vfhC10MapOrder
@@ -158,6 +159,7 @@ func vfhC10MapOrder() {
 	a, b := vfPointXY(p1).AsGeometry(), vfPointXY(p2).AsGeometry()
 	u1, err1 := SymmetricDifference(a, b)
 	m1, errm1 := Relate(a, b)
+	vfMapOrderMark()
 	u2, err2 := SymmetricDifference(a, b)
 	m2, errm2 := Relate(a, b)
 	vfAssert(err1 == nil && err2 == nil && errm1 == nil && errm2 == nil, "no errors")
@@ -171,5 +173,62 @@ func vfhC10MapOrder() {
 		}
 	}
 	vfAssert(same, "same WKB whatever the map iteration order")
+	vfReach("end")
+}
+
+// Determinism under map iteration order, concrete operands with closed lines,
+// touching rings and overlapping polygons: the operation is computed once in
+// insertion order and once - after vfMapOrderMark - with every range over a map
+// rotated or reversed (schedule given by the harness table). Results must be
+// bit-identical.
+func vfhC10MapOrderShapes() {
+	var wa, wb string
+	switch vfInt("case", 0, 5) {
+	case 0:
+		wa, wb = "LINESTRING(0 0,1 0,1 1,0 0)", "POINT(-5 -3)"
+	case 1:
+		wa, wb = "LINESTRING(0 0,1 1,1 2,0 0)", "LINESTRING(0 0,-1 -1,-1 -2,0 0)"
+	case 2:
+		wa, wb = "LINESTRING(2 2,4 2,4 4,2 4,2 2)", "POLYGON((-10 -9,-9 -9,-9 -8,-10 -9))"
+	case 3:
+		wa, wb = "POLYGON((0 0,4 0,4 4,0 4,0 0))", "POLYGON((2 2,6 2,6 6,2 6,2 2))"
+	case 4:
+		wa, wb = "MULTIPOINT(3 3,1 1,2 2,0 0)", "LINESTRING(0 0,2 2,2 0,0 2)"
+	default:
+		wa, wb = "GEOMETRYCOLLECTION(LINESTRING(0 0,2 0,2 2,0 2,0 0),POINT(5 5),POINT(1 1))", "LINESTRING(1 -1,1 3)"
+	}
+	a, err := UnmarshalWKT(wa)
+	vfAssert(err == nil, "operand a parses")
+	b, err := UnmarshalWKT(wb)
+	vfAssert(err == nil, "operand b parses")
+	op := vfInt("op", 0, 5)
+	run := func() (Geometry, string) {
+		var g Geometry
+		var err error
+		switch op {
+		case 0:
+			g, err = Union(a, b)
+		case 1:
+			g, err = Intersection(a, b)
+		case 2:
+			g, err = Difference(a, b)
+		case 3:
+			g, err = SymmetricDifference(a, b)
+		case 4:
+			g, err = UnaryUnion(a)
+		default:
+			g, err = UnionMany([]Geometry{b, a, b})
+		}
+		vfAssert(err == nil, "no error")
+		m, err := Relate(a, b)
+		vfAssert(err == nil, "no error from Relate")
+		return g, m
+	}
+	g1, m1 := run()
+	vfMapOrderMark()
+	g2, m2 := run()
+	vfAssert(m1 == m2, "same DE-9IM code whatever the map iteration order")
+	w1, w2 := g1.AsBinary(), g2.AsBinary()
+	vfAssert(string(w1) == string(w2), "same WKB whatever the map iteration order")
 	vfReach("end")
 }
